@@ -15,6 +15,14 @@ C19-key    DAGTraverser.__call__ memoises on (node, all keyword arguments) - sha
 C19-exh    T-EXH over all algorithm classes: every concrete type resolves to some handler.
 C19-mro/cache  the per-class handler table must be found under the exact algorithm class: a dict keyed by the
            class, or the class's own namespace - not attribute lookup, which follows the MRO (shared with C20).
+C19-equiv  the traversal generators, map_expr_dags and DAGTraverser.__call__ (with its postorder decorators) are
+           interpreted from source on every rooted DAG shape with <= 4 (quick) / 5 (thorough) nodes and operand counts
+           0..2 - shared sub-expressions, repeated operands, diamonds - with every subset of node kinds as cut-off
+           types, and compared with their recursive definitions: tree traversals visit every tree occurrence in
+           pre-/post-order; unique traversals every distinct node once with parent-before-child /
+           children-before-parent; cut-off variants on the truncated DAG; shared `visited` sets; map_expr_dags
+           = recursive application of the handlers, each distinct node handled once per call, several roots,
+           caller-supplied caches, compress on/off; DAGTraverser: one process call per distinct (node, kwargs).
 """
 
 from __future__ import annotations
@@ -214,4 +222,8 @@ def run(ctx) -> Report:
     for cls, cname, init, fetches, kind in hs:
         for fetch in fetches:
             cache_key_rule(prog, rep, "C19-mro/cache", cls, cname, init, fetch, kind)
+    # ---- the real drivers interpreted on generated DAGs (sa/rules/c19_equiv.py) -------------------------------
+    from .c19_equiv import run_equiv
+
+    run_equiv(ctx, rep)
     return rep
